@@ -115,6 +115,42 @@ def check_degree_passthrough(model, rep):
         raise AnalysisError(f'only {n} getpoints implementations found in element.py')
 
 
+def check_degree_split(model, rep):
+    """R09.7: a tensor reference ref1 x ref2 hands the first entry of a per-direction degree tuple to ref1 and the REST to ref2 (a single
+    remaining entry as a number, several as a tuple for the nested tensor reference).  The statements that split the tuple are
+    interpreted for tuples of 2, 3 and 4 entries and for a plain number: no entry may be lost or handed to the wrong factor."""
+    from sa.shapes import ShapeExec, ShapeError, Raised
+    from sa.algebra import Unsupported
+    f = model.func('element:TensorReference.getpoints')
+    rets = [r for r in f.node.body if isinstance(r, ast.Return)]
+    if not rets:
+        raise AnalysisError('TensorReference.getpoints: the final return was not found')
+    last = rets[-1]
+    calls = [c for c in ast.walk(last) if isinstance(c, ast.Call) and method_name(c) == 'getpoints']
+    if len(calls) != 2 or src(calls[0].func.value) != 'self.ref1' or src(calls[1].func.value) != 'self.ref2':
+        raise AnalysisError('TensorReference.getpoints: ref1.getpoints(...) * ref2.getpoints(...) was not found')
+    start = next((k for k, s_ in enumerate(f.node.body) if isinstance(s_, ast.Assign) and 'ischeme1' in src(s_.targets[0])), None)
+    if start is None:
+        raise AnalysisError('TensorReference.getpoints: the scheme split was not found')
+    stmts = f.node.body[start + 1:f.node.body.index(last)]
+    bad = None
+    try:
+        for deg in ('d', ['d0', 'd1'], ['d0', 'd1', 'd2'], ['d0', 'd1', 'd2', 'd3']):
+            ex = ShapeExec({'degree': list(deg) if isinstance(deg, list) else deg, 'ischeme': 'gauss', 'ischeme1': 'gauss', 'ischeme2': 'gauss'})
+            ex.run(stmts)
+            d1, d2 = ex.ev(calls[0].args[1]), ex.ev(calls[1].args[1])
+            want1 = deg[0] if isinstance(deg, list) else deg
+            want2 = deg if not isinstance(deg, list) else deg[1] if len(deg) == 2 else deg[1:]
+            if d1 != want1 or d2 != want2:
+                bad = (deg, d1, d2, want1, want2)
+                break
+    except (Unsupported, ShapeError) as e:
+        raise AnalysisError(f'TensorReference.getpoints: the degree split uses a construct the interpreter does not know: {e}')
+    rep.ob('R09.7', f.key, f.where(stmts[0]) if stmts else f.where(), bad is None, 'the per-direction degree tuple is split as (first entry -> ref1, rest -> ref2) without loss for 2, 3 and 4 entries' if bad is None else
+           f'for the degree {tuple(bad[0]) if isinstance(bad[0], list) else bad[0]} ref1 gets {bad[1]} and ref2 gets {bad[2]}; it should be {bad[3]} and {bad[4]}: a direction is integrated with the degree requested for another one, '
+           'so polynomials of the requested degree in that direction are no longer integrated exactly', statement='degree-split')
+
+
 def run(model, rep, tier):
     rep.explanation = (
         'R09.1 sibling agreement inside sample._Mul (getindex, get_evaluable_indices, get_evaluable_weights, get_lower_args all use divmod(ielem, self._sample2.nelems); point indices are '
@@ -127,6 +163,7 @@ def run(model, rep, tier):
     rep.rule('R09.3', 'every concrete sample defines the four accessors')
     rep.rule('R09.5', 'TensorPoints: coords, weights, tri and hull agree on the slow factor of the point enumeration')
     rep.rule('R09.6', 'getpoints hands the requested degree to sub-references unchanged (bezier halving only under its scheme test)')
+    rep.rule('R09.7', 'TensorReference splits a per-direction degree tuple into (first, rest) without loss (interpreted for 2-4 entries)')
     rep.rule('R09.4', 'transformed points scale weights by the absolute determinant')
     M = model.cls('sample:_Mul')
     for name in ('getindex', 'get_evaluable_indices', 'get_evaluable_weights', 'get_lower_args'):
@@ -263,5 +300,6 @@ def run(model, rep, tier):
         raise AnalysisError(f'only {n} concrete sample classes found')
     check_tensor_points(model, rep)
     check_degree_passthrough(model, rep)
+    check_degree_split(model, rep)
     rep.require('R09.1', 20)
     rep.require('R09.2', 5)
